@@ -761,6 +761,40 @@ def bool_transfer(body, bb, known, pins=None):
     return known
 
 
+def is_error_propagation(body, st):
+    """`Err(e)` where e is the Err payload of another Result (`Err(e) => return Err(e)`, possibly through `e.into()`):
+    handing a callee's error on, not refusing something on one's own."""
+    rv = st.get("rv") or {}
+    if not (rv.get("r") == "agg" and rv.get("vname") == "Err" and len(rv.get("ops", [])) == 1):
+        return False
+    if st.get("rewrap"):
+        return True
+    seen = 0
+    o = rv["ops"][0]
+    while seen < 6:
+        seen += 1
+        p = op_place(o)
+        if p is None:
+            return False
+        pj = [e for e in p["p"] if e != "deref"]
+        if len(pj) == 2 and isinstance(pj[0], dict) and pj[0].get("n") in ("Err", "Break") and isinstance(pj[1], dict) and pj[1].get("f") == 0:
+            return True
+        if pj:
+            return False
+        ds = body.defs.get(p["l"], [])
+        if len(ds) != 1:
+            return False
+        d = ds[0]
+        if d[2] == "assign" and d[3]["rv"]["r"] == "use":
+            o = d[3]["rv"]["o"]
+            continue
+        if d[2] == "call" and callee(d[3]) in ("core::convert::From::from", "core::convert::Into::into") and d[3]["args"]:
+            o = d[3]["args"][0]
+            continue
+        return False
+    return False
+
+
 def bool_switch_target(body, bb, known):
     """If block bb ends in a switch on a local whose constant value is known: the only feasible successor."""
     t = body.blocks[bb]["term"]
